@@ -205,6 +205,29 @@ Definition out_response (r : res response) : sx :=
   | Panic _ => SA "panic"
   end.
 
+(* the schema's view of the same call: the request bytes, and the result if the
+   response is a boxed value of the declared result type *)
+Definition spec_function (mname : string) : option decl :=
+  find (fun f => String.eqb (camel (dname f)) mname) tl_functions.
+Definition spec_request_ok (mname : string) (rq : option value) (payload : bytes) : bool :=
+  match spec_function mname with
+  | Some f =>
+      match tl_request gonm tl_types f (match rq with Some v => v | None => VRec "" [] end) with
+      | Some e => bytes_eqb e payload
+      | None => true
+      end
+  | None => false
+  end.
+Definition spec_response_ok (mname : string) (resp : bytes) (r : res response) : bool :=
+  match spec_function mname with
+  | Some f =>
+      match tl_decode gonm tl_types (TBoxed (dres f)) resp with
+      | Some (v, _) => match r with Ok (RResult v') => value_eqb v v' | _ => false end
+      | None => true
+      end
+  | None => false
+  end.
+
 Definition run_request (a : sx) : sx :=
   match a with
   | SL [SA mname; sv; SBytes resp] =>
@@ -214,7 +237,10 @@ Definition run_request (a : sx) : sx :=
           match req with
           | Some rq =>
               match go_request tl_bindings m rq with
-              | Ok payload => SL [SBytes payload; out_response (go_response tl_bindings m resp)]
+              | Ok payload =>
+                  let r := go_response tl_bindings m resp in
+                  if spec_request_ok mname rq payload && spec_response_ok mname resp r
+                  then SL [SBytes payload; out_response r] else SA "specdiff"
               | Err _ => SA "err"
               | Panic _ => SA "panic"
               end
